@@ -494,7 +494,9 @@ def comparam_subset_doc(oid: str, name: str, body: str, category: str = "COM") -
 def load(docs: Iterable[str]) -> Any:
     """XML texts -> refreshed odxtools Database (through the library's own parsers)."""
     from odxtools.database import Database
+    import io
     db = Database()
+    db.add_auxiliary_file("job.py", io.BytesIO(b"# code of the generated single ECU jobs\n"))
     for d in docs:
         db._process_xml_tree(ET.fromstring(d))
     db.refresh()
